@@ -782,6 +782,9 @@ func (m *lexerModel) evalBytePred(info *types.Info, e ast.Expr, isCh func(ast.Ex
 		switch x.Op {
 		case token.LAND, token.LOR:
 			l, ok1 := m.evalBytePred(info, x.X, isCh, b)
+			if ok1 && l == (x.Op == token.LOR) {
+				return l, true // the left operand decides: the right one is not evaluated
+			}
 			r, ok2 := m.evalBytePred(info, x.Y, isCh, b)
 			if !ok1 || !ok2 {
 				return false, false
